@@ -93,29 +93,56 @@ Proof.
     apply c_weaken with (n := n * xmax + 0); [|lia]. apply costs_bind; [apply stragglers_costs|intros; apply c_ret].
 Qed.
 
-(* ---------------------------------------------------------------- resolve and the rest, given the nested queryer *)
+(* ---------------------------------------------------------------- NS-address walks through any queryer *)
+
+Lemma ns_lookups_guarded_gen : forall (q : cx -> prog reply), (forall cc, guarded (q cc)) ->
+  forall cc s h, guarded (ns_lookups q cc s h).
+Proof.
+  intros q Hq cc s h. induction h as [|h IH]; cbn; [apply g_ret|].
+  apply guarded_bind; [apply Hq|]. intros r. destruct r; try exact IH. destruct s; [apply g_ret|exact IH].
+Qed.
+
+Lemma ns_lookups_costs_gen : forall (q : cx -> prog reply) Qq, (forall cc, costs (q cc) Qq) ->
+  forall cc s h, costs (ns_lookups q cc s h) (h * Qq).
+Proof.
+  intros q Qq Hq cc s h. induction h as [|h IH]; cbn [ns_lookups]; [apply c_ret|].
+  apply c_weaken with (n := Qq + h * Qq); [|lia]. apply costs_bind; [apply Hq|].
+  intros r. destruct r; try exact IH. destruct s; [apply c_ret|exact IH].
+Qed.
+
+Lemma costs_bind_le {A B} : forall (p : prog A) (f : A -> prog B) a b n,
+  costs p a -> (forall x, costs (f x) b) -> a + b <= n -> costs (bind p f) n.
+Proof. intros. eapply c_weaken; [apply costs_bind; eassumption|assumption]. Qed.
+
+(* ---------------------------------------------------------------- resolve and the rest, given the three queryers *)
 
 Section WithQueryer.
   Variable maxdepth qmin : nat.
   Variable v6 : bool.
   Variable Smax Fmax : nat.
-  Variable nq : cx -> prog reply.
-  Variable Q : nat.                       (* exchange bound of one nested query *)
+  Variable nq nq0 : cx -> prog reply.
+  Variable vq : cx -> prog vres.
+  Variable Q Q0 V : nat.                  (* exchange bounds of one nested query / detached query / validation *)
   Hypothesis nq_guarded : forall cc, guarded (nq cc).
   Hypothesis nq_costs : forall cc, costs (nq cc) Q.
+  Hypothesis nq0_guarded : forall cc, guarded (nq0 cc).
+  Hypothesis nq0_costs : forall cc, costs (nq0 cc) Q0.
+  Hypothesis vq_guarded : forall cc, guarded (vq cc).
+  Hypothesis vq_costs : forall cc, costs (vq cc) V.
 
   Lemma ns_lookups_guarded : forall cc s h, guarded (ns_lookups nq cc s h).
-  Proof.
-    intros cc s h. induction h as [|h IH]; cbn; [apply g_ret|].
-    apply guarded_bind; [apply nq_guarded|]. intros r. destruct r; try exact IH. destruct s; [apply g_ret|exact IH].
-  Qed.
-
+  Proof. apply ns_lookups_guarded_gen. exact nq_guarded. Qed.
   Lemma ns_lookups_costs : forall cc s h, costs (ns_lookups nq cc s h) (h * Q).
-  Proof.
-    intros cc s h. induction h as [|h IH]; cbn [ns_lookups]; [apply c_ret|].
-    apply c_weaken with (n := Q + h * Q); [|lia]. apply costs_bind; [apply nq_costs|].
-    intros r. destruct r; try exact IH. destruct s; [apply c_ret|exact IH].
-  Qed.
+  Proof. apply ns_lookups_costs_gen. exact nq_costs. Qed.
+  Lemma ns_lookups0_guarded : forall cc s h, guarded (ns_lookups nq0 cc s h).
+  Proof. apply ns_lookups_guarded_gen. exact nq0_guarded. Qed.
+  Lemma ns_lookups0_costs : forall cc s h, costs (ns_lookups nq0 cc s h) (h * Q0).
+  Proof. apply ns_lookups_costs_gen. exact nq0_costs. Qed.
+
+  Lemma validated_guarded : forall c k, guarded k -> guarded (validated vq c k).
+  Proof. intros c k Hk. unfold validated. apply guarded_bind; [apply vq_guarded|]. intros []; try apply g_ret. exact Hk. Qed.
+  Lemma validated_costs : forall c k n, costs k n -> costs (validated vq c k) (V + n).
+  Proof. intros c k n Hk. unfold validated. apply costs_bind; [apply vq_costs|]. intros []; try apply c_ret. exact Hk. Qed.
 
   Lemma answer_step_guarded : forall c, guarded (answer_step nq c).
   Proof.
@@ -135,11 +162,19 @@ Section WithQueryer.
   Definition rank (depth : nat) (nomin unch : bool) (lvl : nat) : nat :=
     depth * (4 * W) + b2n (negb nomin) * (2 * W) + b2n unch * W + lvl.
 
-  (* one round of resolve: a lookup over at most Smax+1 servers, NS-address sub-queries for at most
-     Fmax hosts in each family (or a DNAME follow-up) *)
-  Definition round_cost : nat := S Smax * xmax + (2 * Fmax + 1) * Q.
+  (* one round of resolve: a lookup over at most Smax+1 servers, NS-address sub-queries for at most Fmax hosts in
+     each family (or a DNAME follow-up), the detached IPv6 walk over at most Fmax hosts, one validation *)
+  Definition round_cost : nat := S Smax * xmax + (2 * Fmax + 1) * Q + Fmax * Q0 + V.
 
-  (* the guard [E] also occurs inside the program (it is the argument of the ob_* lemma), so work on a copy *)
+  (* one unfolding of [resolve_acc]: both sides are convertible once the accessibility proof is a
+     constructor — no functional extensionality *)
+  Lemma resolve_acc_eq : forall c depth nomin unch lvl n a,
+    resolve_acc qmin v6 Smax Fmax nq nq0 vq c depth nomin unch lvl n a =
+    resolve_F qmin v6 Smax Fmax nq nq0 vq c depth nomin unch lvl n
+      (fun d' nm' u' l' n' p => resolve_acc qmin v6 Smax Fmax nq nq0 vq c d' nm' u' l' n' (Acc_inv a p)).
+  Proof. intros. destruct a. reflexivity. Qed.
+
+  (* the guard [E] also occurs inside the program (it is the argument of the ob_ lemma), so work on a copy *)
   Ltac dupE := match goal with E : _ = true |- _ => let E' := fresh "E" in pose proof E as E' end.
   Ltac brk := dupE;
     repeat match goal with
@@ -149,21 +184,13 @@ Section WithQueryer.
     | E : N.ltb _ _ = true |- _ => apply N.ltb_lt in E
     end.
 
-  (* one unfolding of [resolve_acc]: both sides are convertible once the accessibility proof is a
-     constructor — no functional extensionality *)
-  Lemma resolve_acc_eq : forall c depth nomin unch lvl n a,
-    resolve_acc qmin v6 Smax Fmax nq c depth nomin unch lvl n a =
-    resolve_F qmin v6 Smax Fmax nq c depth nomin unch lvl n
-      (fun d' nm' u' l' n' p => resolve_acc qmin v6 Smax Fmax nq c d' nm' u' l' n' (Acc_inv a p)).
-  Proof. intros. destruct a. reflexivity. Qed.
-
   Lemma resolve_guarded : forall c r depth nomin unch lvl n a,
     rank depth nomin unch lvl <= r -> lvl <= qmin ->
-    guarded (resolve_acc qmin v6 Smax Fmax nq c depth nomin unch lvl n a).
+    guarded (resolve_acc qmin v6 Smax Fmax nq nq0 vq c depth nomin unch lvl n a).
   Proof.
     intros c r. induction r as [r IH] using lt_wf_ind. intros depth nomin unch lvl n a Hr Hl.
     assert (REC : forall d' nm' u' l' n' a', rank d' nm' u' l' < rank depth nomin unch lvl -> l' <= qmin ->
-                  guarded (resolve_acc qmin v6 Smax Fmax nq c d' nm' u' l' n' a')).
+                  guarded (resolve_acc qmin v6 Smax Fmax nq nq0 vq c d' nm' u' l' n' a')).
     { intros. eapply (IH (rank d' nm' u' l')); [lia|reflexivity|assumption]. }
     clear IH. rewrite resolve_acc_eq. unfold resolve_F.
     assert (Hp : cached_loop_depth_penalty = 10%N) by reflexivity.
@@ -171,9 +198,10 @@ Section WithQueryer.
     - (* LResp *)
       apply g_choose. intros [|[|cls]] _.
       + destruct (inspectb _) as [E|E]; [|apply g_ret]. brk. apply REC; unfold rank, W in *; cbn [b2n negb]; lia.
-      + destruct (inspectb _) as [E|E]; [|apply answer_step_guarded]. brk. apply REC; unfold rank, W in *; cbn [b2n negb]; lia.
+      + destruct (inspectb _) as [E|E]; [|apply validated_guarded; apply answer_step_guarded]. brk. apply REC; unfold rank, W in *; cbn [b2n negb]; lia.
       + apply g_choose. intros [|[|[|[|[|[|sub]]]]]] _; try apply g_ret.
         * destruct (inspectb _) as [E|E]; [|apply g_ret]. brk. apply REC; unfold rank, W in *; cbn [b2n negb]; lia.
+        * apply validated_guarded. apply g_ret.
         * destruct (inspectb _) as [E|E]; [|apply g_ret]. brk. apply g_choose. intros n' _.
           apply REC; [|lia]. unfold rank, W in *; cbn [b2n negb]. destruct unch; cbn [b2n]; lia.
         * destruct (inspectb _) as [E|E]; [|apply g_ret]. brk. apply g_choose. intros n' _. apply g_choose. intros l' Hl'.
@@ -183,11 +211,12 @@ Section WithQueryer.
           apply REC; [|lia]. unfold rank, W in *. rewrite Hp in *.
           replace depth with ((depth - 10) + 10) at 2 by lia. change (N.to_nat 10) with 10.
           destruct nomin, unch; cbn [b2n negb]; lia.
-        * apply g_choose. intros h _. apply guarded_bind; [apply ns_lookups_guarded|]. intros [rr|]; [apply g_ret|].
+        * apply validated_guarded.
+          apply g_choose. intros h _. apply guarded_bind; [apply ns_lookups_guarded|]. intros [rr|]; [apply g_ret|].
           apply g_choose. intros [|has] _.
           -- destruct (inspectb _) as [E|E]; [|apply g_ret]. brk. apply REC; unfold rank, W in *; cbn [b2n negb]; lia.
           -- apply guarded_bind.
-             ++ destruct v6; [|apply g_ret]. apply g_choose. intros h6 _. apply ns_lookups_guarded.
+             ++ destruct v6; [|apply g_ret]. apply g_choose. intros h6 _. apply ns_lookups0_guarded.
              ++ intros _. destruct (inspectb _) as [E|E]; [|apply g_ret]. brk. apply g_choose. intros n' _. apply g_choose. intros l' Hl'.
                 apply REC; [|lia]. unfold rank, W in *. destruct depth as [|d]; [lia|]. cbn [Nat.sub]. rewrite Nat.sub_0_r.
                 destruct nomin, unch; cbn [b2n negb]; lia.
@@ -205,32 +234,33 @@ Section WithQueryer.
 
   Lemma resolve_costs : forall c r depth nomin unch lvl n a,
     rank depth nomin unch lvl <= r -> lvl <= qmin -> n <= Smax ->
-    costs (resolve_acc qmin v6 Smax Fmax nq c depth nomin unch lvl n a) (S r * round_cost).
+    costs (resolve_acc qmin v6 Smax Fmax nq nq0 vq c depth nomin unch lvl n a) (S r * round_cost).
   Proof.
     intros c r. induction r as [r IH] using lt_wf_ind. intros depth nomin unch lvl n a Hr Hl Hn.
     assert (REC : forall d' nm' u' l' n' a', rank d' nm' u' l' < rank depth nomin unch lvl -> l' <= qmin -> n' <= Smax ->
-                  costs (resolve_acc qmin v6 Smax Fmax nq c d' nm' u' l' n' a') (r * round_cost)).
+                  costs (resolve_acc qmin v6 Smax Fmax nq nq0 vq c d' nm' u' l' n' a') (r * round_cost)).
     { intros d' nm' u' l' n' a' Hlt Hl' Hn'.
       apply c_weaken with (n := S (rank d' nm' u' l') * round_cost); [|apply Nat.mul_le_mono_r; lia].
       eapply (IH (rank d' nm' u' l')); [lia|reflexivity|assumption|assumption]. }
     clear IH. rewrite resolve_acc_eq. unfold resolve_F.
     assert (Hp : cached_loop_depth_penalty = 10%N) by reflexivity.
-    (* split the budget: this round's lookup, this round's sub-queries, the rest *)
-    replace (S r * round_cost) with (S n * xmax + ((S Smax - S n) * xmax + (2 * Fmax + 1) * Q + r * round_cost))
-      by (unfold round_cost; nia).
-    apply costs_bind; [apply lookup_costs|].
     set (rest := r * round_cost).
-    assert (RECw : forall d' nm' u' l' n' a' extra, rank d' nm' u' l' < rank depth nomin unch lvl -> l' <= qmin -> n' <= Smax ->
-                   costs (resolve_acc qmin v6 Smax Fmax nq c d' nm' u' l' n' a') (extra + rest)).
-    { intros. eapply c_weaken; [apply REC; eassumption|lia]. }
+    (* this round's lookup, then what is left of this round's budget plus the rest *)
+    set (left := (2 * Fmax + 1) * Q + Fmax * Q0 + V + rest).
+    apply costs_bind_le with (a := S n * xmax) (b := left);
+      [apply lookup_costs| |unfold left, rest, round_cost; nia].
+    assert (RECw : forall d' nm' u' l' n' a', rank d' nm' u' l' < rank depth nomin unch lvl -> l' <= qmin -> n' <= Smax ->
+                   costs (resolve_acc qmin v6 Smax Fmax nq nq0 vq c d' nm' u' l' n' a') left).
+    { intros. eapply c_weaken; [apply REC; eassumption|unfold left, rest; lia]. }
     intros [ | | | | ].
     - apply c_choose. intros [|[|cls]] _.
       + destruct (inspectb _) as [E|E]; [|apply c_ret]. brk. apply RECw; unfold rank, W in *; cbn [b2n negb]; lia.
       + destruct (inspectb _) as [E|E].
         * brk. apply RECw; unfold rank, W in *; cbn [b2n negb]; lia.
-        * eapply c_weaken; [apply answer_step_costs|nia].
+        * eapply c_weaken; [apply validated_costs; apply answer_step_costs|unfold left; nia].
       + apply c_choose. intros [|[|[|[|[|[|sub]]]]]] _; try apply c_ret.
         * destruct (inspectb _) as [E|E]; [|apply c_ret]. brk. apply RECw; unfold rank, W in *; cbn [b2n negb]; lia.
+        * eapply c_weaken; [apply validated_costs; apply (c_ret RResp 0)|unfold left; lia].
         * destruct (inspectb _) as [E|E]; [|apply c_ret]. brk. apply c_choose. intros n' Hn'.
           apply RECw; [|lia|lia]. unfold rank, W in *; cbn [b2n negb]. destruct unch; cbn [b2n]; lia.
         * destruct (inspectb _) as [E|E]; [|apply c_ret]. brk. apply c_choose. intros n' Hn'. apply c_choose. intros l' Hl'.
@@ -240,17 +270,19 @@ Section WithQueryer.
           apply RECw; [|lia|lia]. unfold rank, W in *. rewrite Hp in *.
           replace depth with ((depth - 10) + 10) at 2 by lia. change (N.to_nat 10) with 10.
           destruct nomin, unch; cbn [b2n negb]; lia.
-        * apply c_choose. intros h Hh.
-          replace ((S Smax - S n) * xmax + (2 * Fmax + 1) * Q + rest) with (h * Q + ((S Smax - S n) * xmax + (2 * Fmax + 1 - h) * Q + rest)) by nia.
-          apply costs_bind; [apply ns_lookups_costs|]. intros [rr|]; [apply c_ret|].
+        * apply c_weaken with (n := V + ((2 * Fmax + 1) * Q + Fmax * Q0 + rest)); [|unfold left; lia].
+          apply validated_costs.
+          apply c_choose. intros h Hh.
+          apply costs_bind_le with (a := h * Q) (b := (Fmax + 1) * Q + Fmax * Q0 + rest); [apply ns_lookups_costs| |nia].
+          intros [rr|]; [apply c_ret|].
           apply c_choose. intros [|has] _.
-          -- destruct (inspectb _) as [E|E]; [|apply c_ret]. brk. apply RECw; unfold rank, W in *; cbn [b2n negb]; lia.
-          -- replace ((S Smax - S n) * xmax + (2 * Fmax + 1 - h) * Q + rest) with (Fmax * Q + ((S Smax - S n) * xmax + (Fmax + 1 - h) * Q + rest)) by nia.
-             apply costs_bind.
+          -- destruct (inspectb _) as [E|E]; [|apply c_ret]. brk.
+             eapply c_weaken; [apply REC; unfold rank, W in *; cbn [b2n negb]; lia|unfold rest; lia].
+          -- apply costs_bind_le with (a := Fmax * Q0) (b := rest); [| |lia].
              ++ destruct v6; [|apply c_ret]. apply c_choose. intros h6 Hh6.
-                eapply c_weaken; [apply ns_lookups_costs|]. apply Nat.mul_le_mono_r. exact Hh6.
+                eapply c_weaken; [apply ns_lookups0_costs|]. apply Nat.mul_le_mono_r. exact Hh6.
              ++ intros _. destruct (inspectb _) as [E|E]; [|apply c_ret]. brk. apply c_choose. intros n' Hn'. apply c_choose. intros l' Hl'.
-                apply RECw; [|lia|lia]. unfold rank, W in *. destruct depth as [|d]; [lia|]. cbn [Nat.sub]. rewrite Nat.sub_0_r.
+                apply REC; [|lia|lia]. unfold rank, W in *. destruct depth as [|d]; [lia|]. cbn [Nat.sub]. rewrite Nat.sub_0_r.
                 destruct nomin, unch; cbn [b2n negb]; lia.
     - apply c_ret.
     - destruct (inspectb _) as [E|E]; [|apply c_ret]. brk. apply RECw; [|lia|lia]. unfold rank, W in *; cbn [b2n negb]; lia.
@@ -258,11 +290,12 @@ Section WithQueryer.
       + brk. apply RECw; [|lia|lia]. unfold rank, W in *; cbn [b2n negb]; lia.
       + destruct (cx_nsl c); [apply c_ret|]. destruct (inspectb unch) as [E'|E']; [|apply c_ret]. subst unch.
         apply c_choose. intros h Hh.
-        replace ((S Smax - S n) * xmax + (2 * Fmax + 1) * Q + rest) with (h * Q + (h * Q + ((S Smax - S n) * xmax + (2 * Fmax + 1 - 2 * h) * Q + rest))) by nia.
-        apply costs_bind; [apply ns_lookups_costs|]. intros _.
-        apply costs_bind; [destruct v6; [apply ns_lookups_costs|apply c_ret]|]. intros _.
+        apply costs_bind_le with (a := h * Q) (b := h * Q + rest); [apply ns_lookups_costs| |unfold left; nia].
+        intros _.
+        apply costs_bind_le with (a := h * Q) (b := rest); [destruct v6; [apply ns_lookups_costs|apply c_ret]| |lia].
+        intros _.
         apply c_choose. intros [|grew] _; [apply c_ret|]. apply c_choose. intros n' Hn'.
-        apply RECw; [|lia|lia]. unfold rank, W in *; cbn [b2n negb]; lia.
+        apply REC; [|lia|lia]. unfold rank, W in *; cbn [b2n negb]; lia.
     - destruct (inspectb _) as [E|E]; [|apply c_ret]. brk. apply RECw; [|lia|lia]. unfold rank, W in *; cbn [b2n negb]; lia.
   Qed.
 
@@ -270,7 +303,7 @@ Section WithQueryer.
   Definition rounds : nat := S (rank maxdepth false true qmin).
   Definition handle_cost : nat := rounds * round_cost.
 
-  Lemma handle_guarded : forall c, guarded (handle maxdepth qmin v6 Smax Fmax nq c).
+  Lemma handle_guarded : forall c, guarded (handle maxdepth qmin v6 Smax Fmax nq nq0 vq c).
   Proof.
     intros c. unfold handle. apply g_enf. intros []; try apply g_ret.
     apply g_choose. intros l0 Hl0. apply g_choose. intros n0 _.
@@ -278,7 +311,7 @@ Section WithQueryer.
     intros r. apply g_enf. intros []; apply g_ret.
   Qed.
 
-  Lemma handle_costs : forall c, costs (handle maxdepth qmin v6 Smax Fmax nq c) handle_cost.
+  Lemma handle_costs : forall c, costs (handle maxdepth qmin v6 Smax Fmax nq nq0 vq c) handle_cost.
   Proof.
     intros c. unfold handle. apply c_enf. intros []; try apply c_ret.
     apply c_choose. intros l0 Hl0. apply c_choose. intros n0 Hn0.
@@ -328,7 +361,7 @@ Section WithQueryer.
     intros []; try apply c_ret; apply c_enf; intros []; apply c_ret.
   Qed.
 
-  Lemma pipeline_guarded : forall c, guarded (pipeline maxdepth qmin v6 Smax Fmax nq c).
+  Lemma pipeline_guarded : forall c, guarded (pipeline maxdepth qmin v6 Smax Fmax nq nq0 vq c).
   Proof.
     intros c. unfold pipeline. apply g_choose. intros [|hit] _; [|apply pipeline_hit_guarded].
     unfold pipeline_miss. apply guarded_bind; [apply handle_guarded|].
@@ -338,7 +371,7 @@ Section WithQueryer.
     - apply g_choose. intros i _. apply write_failure_guarded.
   Qed.
 
-  Lemma pipeline_costs : forall c, costs (pipeline maxdepth qmin v6 Smax Fmax nq c) pipeline_cost.
+  Lemma pipeline_costs : forall c, costs (pipeline maxdepth qmin v6 Smax Fmax nq nq0 vq c) pipeline_cost.
   Proof.
     intros c. unfold pipeline, pipeline_cost. apply c_choose. intros [|hit] _.
     - unfold pipeline_miss. apply costs_bind; [apply handle_costs|].
@@ -351,51 +384,195 @@ Section WithQueryer.
   Qed.
 End WithQueryer.
 
-(* ---------------------------------------------------------------- Query nesting and the closed form *)
+(* ---------------------------------------------------------------- validation sub-queries *)
+
+Section Validator.
+  Variable maxdepth qmin : nat.
+  Variable v6 : bool.
+  Variable Smax Fmax G : nat.
+  Variable nq nq0 : cx -> prog reply.
+  Variable nest : nat.
+  Variable Q Q0 : nat.
+  Hypothesis nq_guarded : forall cc, guarded (nq cc).
+  Hypothesis nq_costs : forall cc, costs (nq cc) Q.
+  Hypothesis nq0_guarded : forall cc, guarded (nq0 cc).
+  Hypothesis nq0_costs : forall cc, costs (nq0 cc) Q0.
+
+  (* a direct sub-resolution whose own validations cost at most Vi *)
+  Definition Hc (Vi : nat) : nat := handle_cost maxdepth qmin Smax Fmax Q Q0 Vi.
+
+  Lemma subq_ok : forall inner Vi c, (forall cc, guarded (inner cc)) -> (forall cc, costs (inner cc) Vi) ->
+    guarded (subq maxdepth qmin v6 Smax Fmax nq nq0 nest inner c) /\ costs (subq maxdepth qmin v6 Smax Fmax nq nq0 nest inner c) (Hc Vi).
+  Proof.
+    intros inner Vi c Hg Hcst. unfold subq. split.
+    - apply g_choose. intros [|hit] _; [apply g_ret|]. apply g_int_s; [|intros; apply g_ret].
+      apply g_choose. intros l0 Hl0. apply g_choose. intros n0 _.
+      apply guarded_bind.
+      + unfold resolve. eapply resolve_guarded; eauto.
+      + intros r. apply g_end. apply g_enf. intros []; try apply g_ret. destruct r; try apply g_ret.
+        apply g_choose. intros [|i] _; apply g_ret.
+    - apply c_choose. intros [|hit] _; [apply c_ret|]. apply c_int; [|intros; apply c_ret]. apply c_sub.
+      apply c_choose. intros l0 Hl0. apply c_choose. intros n0 Hn0.
+      apply c_weaken with (n := Hc Vi + 0); [|lia]. apply costs_bind.
+      + unfold Hc, handle_cost, rounds, resolve. eapply resolve_costs; eauto. unfold rank. lia.
+      + intros r. apply c_end. apply c_enf. intros []; try apply c_ret. destruct r; try apply c_ret.
+        apply c_choose. intros [|i] _; apply c_ret.
+  Qed.
+
+  Lemma subqs_ok : forall inner Vi k c, (forall cc, guarded (inner cc)) -> (forall cc, costs (inner cc) Vi) ->
+    guarded (subqs maxdepth qmin v6 Smax Fmax nq nq0 nest inner k c) /\
+    costs (subqs maxdepth qmin v6 Smax Fmax nq nq0 nest inner k c) (k * Hc Vi).
+  Proof.
+    intros inner Vi k c Hg Hcst. induction k as [|k [IHg IHc]]; cbn [subqs]; [split; [apply g_ret|apply c_ret]|].
+    destruct (subq_ok inner Vi c Hg Hcst) as [Sg Sc]. split.
+    - apply guarded_bind; [exact Sg|]. intros []; try apply g_ret. exact IHg.
+    - apply c_weaken with (n := Hc Vi + k * Hc Vi); [|lia]. apply costs_bind; [exact Sc|]. intros []; try apply c_ret. exact IHc.
+  Qed.
+
+  Lemma vstep_ok : forall vsame vless a b lab c,
+    (forall cc, guarded (vsame cc)) -> (forall cc, costs (vsame cc) a) ->
+    (forall cc, guarded (vless cc)) -> (forall cc, costs (vless cc) b) ->
+    guarded (vstep maxdepth qmin v6 Smax Fmax nq nq0 nest vsame vless lab c) /\
+    costs (vstep maxdepth qmin v6 Smax Fmax nq nq0 nest vsame vless lab c) (S lab * Hc (a + b)).
+  Proof.
+    intros vsame vless a b lab c Gs Cs Gl Cl. unfold vstep.
+    set (inner := fun c' : cx => Choose 1 (fun same : nat => match same with O => vsame c' | _ => vless c' end)).
+    assert (Ig : forall cc, guarded (inner cc)) by (intros cc; apply g_choose; intros [|i] _; auto).
+    assert (Ic : forall cc, costs (inner cc) (a + b)).
+    { intros cc. apply c_choose. intros [|i] _; [eapply c_weaken; [apply Cs|lia]|eapply c_weaken; [apply Cl|lia]]. }
+    split.
+    - apply g_choose. intros k _. apply (subqs_ok inner (a + b) k c Ig Ic).
+    - apply c_choose. intros k Hk. eapply c_weaken; [apply (subqs_ok inner (a + b) k c Ig Ic)|]. apply Nat.mul_le_mono_r. exact Hk.
+  Qed.
+
+  (* the exchange bound of a validation, by the same recursion as the validation itself *)
+  Fixpoint VRc (less : nat) (lab rep : nat) {struct rep} : nat :=
+    S lab * Hc ((match rep with O => 0 | S r' => VRc less lab r' end) + less).
+  Fixpoint VC (lab : nat) : nat -> nat := VRc (match lab with O => 0 | S l' => VC l' G end) lab.
+
+  Lemma vfail_ok : (forall cc, guarded (vfail cc)) /\ (forall cc n, costs (vfail cc) n).
+  Proof. split; intros; [apply g_ret|apply c_ret]. Qed.
+
+  Lemma vrep_of_ok : forall vless b lab, (forall cc, guarded (vless cc)) -> (forall cc, costs (vless cc) b) ->
+    forall rep c, guarded (vrep_of maxdepth qmin v6 Smax Fmax nq nq0 nest vless lab rep c) /\
+                  costs (vrep_of maxdepth qmin v6 Smax Fmax nq nq0 nest vless lab rep c) (VRc b lab rep).
+  Proof.
+    intros vless b lab Gl Cl rep. induction rep as [|r IH]; intros c; cbn [vrep_of VRc].
+    - apply vstep_ok; auto; intros; [apply g_ret|apply c_ret].
+    - apply vstep_ok; auto; intros cc; apply IH.
+  Qed.
+
+  Lemma vlab_ok : forall lab rep c, guarded (vlab maxdepth qmin v6 Smax Fmax G nq nq0 nest lab rep c) /\
+                                     costs (vlab maxdepth qmin v6 Smax Fmax G nq nq0 nest lab rep c) (VC lab rep).
+  Proof.
+    induction lab as [|l IH]; intros rep c; cbn [vlab VC].
+    - apply vrep_of_ok; intros; [apply g_ret|apply c_ret].
+    - apply vrep_of_ok; intros cc; apply IH.
+  Qed.
+End Validator.
+
+(* ---------------------------------------------------------------- Query nesting, detached generations, the bound *)
 
 Section Closed.
   Variable maxdepth qmin : nat.
   Variable v6 : bool.
-  Variable Smax Fmax : nat.
+  Variable Smax Fmax Lmax G : nat.
+  Let maxQ := N.to_nat max_queryer_recursion.
 
-  (* per pipeline run: exchanges it performs itself, and nested queries it can start *)
-  Definition A_cost : nat := rounds maxdepth qmin * (S Smax * xmax).
-  Definition B_fan : nat := rounds maxdepth qmin * (2 * Fmax + 1) + N.to_nat cname_loop_depth.
+  (* exchange bound of one pipeline run whose nested queries cost Qn and whose detached queries cost Q0 *)
+  Definition run_cost (Qn Q0 : nat) : nat :=
+    pipeline_cost maxdepth qmin Smax Fmax Qn Q0 (VC maxdepth qmin Smax Fmax G Qn Q0 Lmax G).
 
-  Fixpoint geom (b q : nat) : nat := match q with O => 0 | S q' => 1 + b * geom b q' end.
+  Fixpoint qcost (Q0 : nat) (q : nat) : nat := match q with O => 0 | S q' => run_cost (qcost Q0 q') Q0 end.
+  Fixpoint gcost (gen : nat) : nat := match gen with O => 0 | S g' => qcost (gcost g') maxQ end.   (* one detached query *)
 
-  Lemma pipeline_cost_split : forall Qn, pipeline_cost maxdepth qmin Smax Fmax Qn = A_cost + B_fan * Qn.
-  Proof. intros Qn. unfold pipeline_cost, handle_cost, chase_cost, round_cost, A_cost, B_fan. nia. Qed.
+  Lemma detached_ok : forall gen,
+    (forall g q c, g <= gen -> guarded (queryg maxdepth qmin v6 Smax Fmax Lmax G g q c) /\
+                              costs (queryg maxdepth qmin v6 Smax Fmax Lmax G g q c) (qcost (gcost g) q)) ->
+    forall c, guarded (detached maxdepth qmin v6 Smax Fmax Lmax G (S gen) c) /\
+              costs (detached maxdepth qmin v6 Smax Fmax Lmax G (S gen) c) (gcost (S gen)).
+  Proof. intros gen H c. cbn [detached gcost]. apply H. lia. Qed.
 
-  Lemma query_ok : forall q c,
-    guarded (query maxdepth qmin v6 Smax Fmax q c) /\ costs (query maxdepth qmin v6 Smax Fmax q c) (A_cost * geom B_fan q).
+  Lemma queryg_ok : forall gen q c,
+    guarded (queryg maxdepth qmin v6 Smax Fmax Lmax G gen q c) /\
+    costs (queryg maxdepth qmin v6 Smax Fmax Lmax G gen q c) (qcost (gcost gen) q).
   Proof.
-    induction q as [|q IH]; intros c; cbn [query]; [split; [apply g_ret|apply c_ret]|].
-    assert (IHg : forall cc, guarded (query maxdepth qmin v6 Smax Fmax q cc)) by (intros; apply IH).
-    assert (IHc : forall cc, costs (query maxdepth qmin v6 Smax Fmax q cc) (A_cost * geom B_fan q)) by (intros; apply IH).
-    split.
-    - apply g_int_s; [|intros; apply g_ret].
-      apply guarded_bind; [eapply pipeline_guarded; eassumption|]. intros r. apply g_end. apply g_enf. intros []; apply g_ret.
-    - apply c_int; [|intros; apply c_ret]. apply c_sub.
-      apply c_weaken with (n := pipeline_cost maxdepth qmin Smax Fmax (A_cost * geom B_fan q) + 0).
-      + apply costs_bind; [apply pipeline_costs; assumption|]. intros r. apply c_end. apply c_enf. intros []; apply c_ret.
-      + rewrite pipeline_cost_split. cbn [geom]. nia.
+    induction gen as [gen IHg] using lt_wf_ind.
+    assert (D : forall c, guarded (detached maxdepth qmin v6 Smax Fmax Lmax G gen c) /\
+                          costs (detached maxdepth qmin v6 Smax Fmax Lmax G gen c) (gcost gen)).
+    { intros c. destruct gen as [|g']; cbn [detached gcost]; [split; [apply g_ret|apply c_ret]|]. apply IHg. lia. }
+    induction q as [|q IH]; intros c.
+    - destruct gen; cbn; split; try apply g_ret; apply c_ret.
+    - assert (E : queryg maxdepth qmin v6 Smax Fmax Lmax G gen (S q) c =
+                  DebitInt (cx_be c)
+                    (SubRun (mk_sl (maxQ - q) c)
+                       (bind (pipeline maxdepth qmin v6 Smax Fmax (queryg maxdepth qmin v6 Smax Fmax Lmax G gen q)
+                                (detached maxdepth qmin v6 Smax Fmax Lmax G gen)
+                                (vlab maxdepth qmin v6 Smax Fmax G (queryg maxdepth qmin v6 Smax Fmax Lmax G gen q)
+                                      (detached maxdepth qmin v6 Smax Fmax Lmax G gen) (maxQ - q) Lmax G) c)
+                          (fun r => SubEnd (EnfErr (fun e => match e with ROk => Ret r | e' => Ret (ReplyWork e' true) end)))))
+                    (fun e => Ret (ReplyWork e true))) by (destruct gen; reflexivity).
+      rewrite E. clear E.
+      set (nq := queryg maxdepth qmin v6 Smax Fmax Lmax G gen q) in *.
+      set (nq0 := detached maxdepth qmin v6 Smax Fmax Lmax G gen) in *.
+      assert (Gq : forall cc, guarded (nq cc)) by (intros; apply IH).
+      assert (Cq : forall cc, costs (nq cc) (qcost (gcost gen) q)) by (intros; apply IH).
+      assert (G0 : forall cc, guarded (nq0 cc)) by (intros; apply D).
+      assert (C0 : forall cc, costs (nq0 cc) (gcost gen)) by (intros; apply D).
+      pose proof (vlab_ok maxdepth qmin v6 Smax Fmax G nq nq0 (maxQ - q) _ _ Gq Cq G0 C0 Lmax G) as VL.
+      split.
+      + apply g_int_s; [|intros; apply g_ret].
+        apply guarded_bind; [eapply pipeline_guarded; eauto; intros cc; apply VL|]. intros r. apply g_end. apply g_enf. intros []; apply g_ret.
+      + apply c_int; [|intros; apply c_ret]. apply c_sub. cbn [qcost]. unfold run_cost.
+        apply c_weaken with (n := pipeline_cost maxdepth qmin Smax Fmax (qcost (gcost gen) q) (gcost gen)
+                                    (VC maxdepth qmin Smax Fmax G (qcost (gcost gen) q) (gcost gen) Lmax G) + 0); [|lia].
+        apply costs_bind; [eapply pipeline_costs; eauto; intros cc; apply VL|]. intros r. apply c_end. apply c_enf. intros []; apply c_ret.
   Qed.
 
-  Lemma query_guarded : forall q c, guarded (query maxdepth qmin v6 Smax Fmax q c).
-  Proof. intros. apply query_ok. Qed.
-  Lemma query_costs : forall q c, costs (query maxdepth qmin v6 Smax Fmax q c) (A_cost * geom B_fan q).
-  Proof. intros. apply query_ok. Qed.
+  Definition work_bound (gen : nat) : nat := run_cost (qcost (gcost gen) maxQ) (gcost gen).
 
-  Definition work_bound : nat := A_cost * geom B_fan (S (N.to_nat max_queryer_recursion)).
-
-  Lemma client_guarded : forall c, guarded (client maxdepth qmin v6 Smax Fmax c).
-  Proof. intros c. unfold client. eapply pipeline_guarded; intros cc; [apply query_guarded|apply query_costs]. Qed.
-
-  Lemma client_costs : forall c, costs (client maxdepth qmin v6 Smax Fmax c) work_bound.
+  Lemma client_ok : forall gen c,
+    guarded (client maxdepth qmin v6 Smax Fmax Lmax G gen c) /\ costs (client maxdepth qmin v6 Smax Fmax Lmax G gen c) (work_bound gen).
   Proof.
-    intros c. unfold client, work_bound.
-    eapply c_weaken; [apply pipeline_costs; intros cc; [apply query_guarded|apply query_costs]|].
-    rewrite pipeline_cost_split. cbn [geom]. nia.
+    intros gen c. unfold client, work_bound, run_cost.
+    set (nq := queryg maxdepth qmin v6 Smax Fmax Lmax G gen (N.to_nat max_queryer_recursion)).
+    set (nq0 := detached maxdepth qmin v6 Smax Fmax Lmax G gen).
+    assert (Gq : forall cc, guarded (nq cc)) by (intros; apply queryg_ok).
+    assert (Cq : forall cc, costs (nq cc) (qcost (gcost gen) maxQ)) by (intros; apply queryg_ok).
+    assert (D : forall cc, guarded (nq0 cc) /\ costs (nq0 cc) (gcost gen)).
+    { intros cc. unfold nq0. destruct gen as [|g']; cbn [detached gcost]; [split; [apply g_ret|apply c_ret]|]. apply queryg_ok. }
+    assert (G0 : forall cc, guarded (nq0 cc)) by (intros; apply D).
+    assert (C0 : forall cc, costs (nq0 cc) (gcost gen)) by (intros; apply D).
+    pose proof (vlab_ok maxdepth qmin v6 Smax Fmax G nq nq0 O _ _ Gq Cq G0 C0 Lmax G) as VL.
+    split; [eapply pipeline_guarded|eapply pipeline_costs]; eauto; intros cc; apply VL.
   Qed.
+
+  Lemma client_guarded : forall gen c, guarded (client maxdepth qmin v6 Smax Fmax Lmax G gen c).
+  Proof. intros. apply client_ok. Qed.
+  Lemma client_costs : forall gen c, costs (client maxdepth qmin v6 Smax Fmax Lmax G gen c) (work_bound gen).
+  Proof. intros. apply client_ok. Qed.
 End Closed.
+
+(* ---------------------------------------------------------------- the forwarder *)
+
+Lemma forward_guarded : forall be n, guarded (forward be n).
+Proof.
+  intros be n. induction n as [|n IH]; cbn [forward]; [apply g_ret|].
+  apply g_choose. intros [|g] _; [|exact IH]. apply g_out_x; [|intros; apply g_ret].
+  apply g_choose. intros [|[|a]] _; [apply g_ret| |exact IH].
+  apply g_choose. intros [|g2] _; [|exact IH]. apply g_out_x; [|intros; apply g_ret].
+  apply g_choose. intros [|b] _; [apply g_ret|exact IH].
+Qed.
+
+(* at most two transport attempts per configured upstream *)
+Lemma forward_costs : forall be n, costs (forward be n) (2 * n).
+Proof.
+  intros be n. induction n as [|n IH]; cbn [forward]; [apply c_ret|].
+  assert (IH' : costs (forward be n) (2 * S n - 2)) by (eapply c_weaken; [exact IH|lia]).
+  apply c_choose. intros [|g] _; [|eapply c_weaken; [exact IH|lia]].
+  apply c_out; [|intros; apply c_ret]. apply c_weaken with (n := S (2 * S n - 1)); [|lia]. apply c_exch.
+  apply c_choose. intros [|[|a]] _; [apply c_ret| |eapply c_weaken; [exact IH|lia]].
+  apply c_choose. intros [|g2] _; [|eapply c_weaken; [exact IH|lia]].
+  apply c_out; [|intros; apply c_ret]. apply c_weaken with (n := S (2 * S n - 2)); [|lia]. apply c_exch.
+  apply c_choose. intros [|b] _; [apply c_ret|exact IH'].
+Qed.
